@@ -25,7 +25,26 @@ from harness.gen import layouts
 from harness.impl import content
 
 K = 16384
-MATCHERS = {}
+
+
+def _m_d20a(case, observed, finding):
+    """D20a: a listed file replaced by a directory that contains a dangling symlink; the raw
+    FileNotFoundError of os.path.getsize escapes real_size()/verify_filesize().  Narrow: the case
+    must contain such a directory, the observed outcome must be exactly that raised exception, and
+    everything before that file must have been handled normally."""
+    idx = [i for i, st in enumerate(case.get('disk', [])) if st.get('kind') == 'dir-dangling']
+    if not idx or case.get('top') in ('nonexistent', 'regular-file') or case.get('single'):
+        return False
+    if (observed or {}).get('res', {}).get('raised') != ['internal:FileNotFoundError']:
+        return False
+    i = idx[0]
+    if case.get('cb') is not None:
+        return len(observed.get('calls', [])) == i
+    return all(st['kind'] in ('ok', 'symlink') or (st['kind'] == 'dir' and st['total'] == f['size'])
+               for st, f in zip(case['disk'][:i], case['files'][:i]))
+
+
+MATCHERS = {'D20a_dir_with_dangling_link': _m_d20a}
 
 RULE = ('case = (layout, per-file disk state, path shape, pieces kind, callback); exhaustive: every '
         'assignment of {ok, missing, -1, +1, dir(total = size), dir(total != size)} to <= 3 (thorough: 4) '
@@ -93,6 +112,11 @@ def _build(wd, c):
                 os.makedirs(os.path.join(p, 'sub'))
                 with open(os.path.join(p, 'sub', 'y'), 'wb') as f:
                     f.write(b'b' * (t - a))
+        elif k == 'dir-dangling':
+            os.makedirs(p)
+            with open(os.path.join(p, 'x'), 'wb') as f:
+                f.write(b'a' * st['total'])
+            os.symlink(os.path.join(aux, f'nothing{idx}'), os.path.join(p, 'dangling'))
         elif k == 'symlink':
             tgt = os.path.join(aux, f't{idx}')
             with open(tgt, 'wb') as f:
@@ -227,7 +251,8 @@ def fs_abstraction(c):
             ent = {'kind': 'file', 'n': 11}
         else:
             k = st['kind']
-            if k in ('missing', 'dangling'):
+            if k in ('missing', 'dangling', 'dir-dangling'):
+                # dir-dangling: the size cannot be determined => the specification wants a read error
                 ent = {'kind': 'missing'}
             elif k in ('ok', 'symlink'):
                 ent = {'kind': 'file', 'n': f['size']}
@@ -301,6 +326,9 @@ def gen_cases(ctx, scale=1.0):
                     continue
                 cases.append(_case([{'path': [], 'size': size}], [st], rng, single=True, top=top,
                                    pieces='real', xverify=True, name='single.bin', shape='single'))
+    # witness of the open finding D20a (always run)
+    cases.append(_case([{'path': ['a'], 'size': 5}, {'path': ['b'], 'size': 7}],
+                       [{'kind': 'ok'}, {'kind': 'dir-dangling', 'total': 7}], rng, shape='witness-D20a'))
     # 2. structured random
     for _ in range(int(ctx.n(1500, 20000) * scale)):
         n = rng.choice([1, 2, 2, 3, 3, 4, 5, 6, 9])
@@ -316,6 +344,8 @@ def gen_cases(ctx, scale=1.0):
             if i in bad:
                 st = rng.choice(_states_for(s)[1:] + [{'kind': 'dangling'},
                                                       {'kind': 'resize', 'd': rng.randint(1, 70000)}])
+                if rng.random() < 0.03:
+                    st = {'kind': 'dir-dangling', 'total': s}
                 if st['kind'] == 'resize' and s + st['d'] < 0:
                     st = {'kind': 'missing'}
             else:
@@ -399,7 +429,9 @@ def evaluate(ctx, drv, cases):
                     ctx.violation('verify_filesize() deviates from the specification (result / raised error / '
                                   'callback trace)', sub, spec, impl, finding_matchers=MATCHERS)
                     continue
-                if impl != rep['model'] and 'which' not in impl:
+                if any(st['kind'] == 'dir-dangling' for st in c['disk']):
+                    ctx.dist['outside-model(dir-dangling)-but-meets-spec'] += 1
+                elif impl != rep['model'] and 'which' not in impl:
                     ctx.corr_break('c20.verify', sub, rep['model'], impl)
             if not obs.get('metainfo_unchanged', True):
                 ctx.violation('verify_filesize() changed the metainfo', case, 'unchanged', 'changed',
